@@ -139,6 +139,36 @@ def run {α} : List (Op α) → Cols α → Option (Cols α)
     | some c' => run ops c'
     | none => none
 
+/-! ### the same programs on (number of fields, list of entries) - the Spec-level reading of a table as NumPy
+records; `run_refines_rows` (Props) proves the column interpreter above equal to this one -/
+
+def stepRows {α} (st : Nat × List (List α)) : Op α → Option (Nat × List (List α))
+  | .take ix => (takeRows ix st.2).map (fun r => (st.1, r))
+  | .mask m =>
+    if m.length = st.2.length then
+      some (st.1, (st.2.zip m).filterMap (fun p => if p.2 then some p.1 else none))
+    else none
+  | .concat o => if wfB o && o.length == st.1 then some (st.1, st.2 ++ toRows o) else none
+  | .concatL o => if wfB o && o.length == st.1 then some (st.1, toRows o ++ st.2) else none
+  | .sortBy j key =>
+    if j < st.1 then (takeRows (argsort ((st.2.filterMap (fun r => r[j]?)).map key)) st.2).map (fun r => (st.1, r)) else none
+  | .predMask j p =>
+    if j < st.1 then some (st.1, st.2.filter (fun r => match r[j]? with | some x => p x | none => false)) else none
+  | .replace j c =>
+    if st.1 == 1 && j == 0 then some (1, c.map (fun x => [x]))      -- the only column: any length is a table
+    else if j < st.1 && c.length == st.2.length then some (st.1, replaceRows j c st.2) else none
+  | .addFields new =>
+    if new.all (fun c => c.length == st.2.length) then
+      some (st.1 + new.length, if new.isEmpty then st.2 else addRows st.2 (toRows new))
+    else none
+
+def runRows {α} : List (Op α) → Nat × List (List α) → Option (Nat × List (List α))
+  | [], st => some st
+  | op :: ops, st =>
+    match stepRows st op with
+    | some st' => runRows ops st'
+    | none => none
+
 /-! ### typed construction (`_implicit_format_conversion`): "converted to the declared type, or raises"
 
 The dispatch itself is tabulated from the running code (`Gen/C19.lean`: field kind × argument form ↦
